@@ -3,6 +3,7 @@
 //! Every property is decided by an oracle that observes executions of the real
 //! `ironcalc_base` / `ironcalc` crates built from the repository working tree.
 
+pub mod crash;
 pub mod evid;
 pub mod fgen;
 pub mod known;
